@@ -544,11 +544,20 @@ fn adapted_case(report: &mut Report, seed: u64, idx: u64) {
     if preset.is_nuts() {
         patches.push(("maxdepth", json!(6)));
     }
+    // the scales come from the draw / gradient variance ratio (default) or from the draw variance alone
+    let draw_only = (idx / 6) % 2 == 1;
+    if draw_only {
+        patches.push(("adapt_options.mass_matrix_options.use_grad_based_estimate", json!(false)));
+    }
     let replay = json!({"adapted": true, "seed": seed, "idx": idx});
-    let Ok((mut chain, _)) = chain_on(preset, &patches, Logged::new(target, false), rng.next_u64()) else {
+    let Ok((mut chain, skipped)) = chain_on(preset, &patches, Logged::new(target, false), rng.next_u64()) else {
         report.inconclusive("adapted: settings rejected");
         return;
     };
+    if !skipped.is_empty() {
+        report.inconclusive("adapted: settings path missing");
+        return;
+    }
     if chain.set_position(&start).is_err() {
         report.inconclusive("adapted: set_position failed");
         return;
@@ -569,6 +578,17 @@ fn adapted_case(report: &mut Report, seed: u64, idx: u64) {
         let post = chain.scales().unwrap();
         if post.id != pre.id {
             n_ids += 1;
+        }
+        // the id is what makes the next trajectory re-derive the whitened coordinates of its start point: new scales
+        // under an old id leave the cached point in the previous coordinates
+        let same_bits = |a: &[f64], b: &[f64]| a.iter().zip(b).all(|(x, y)| x.to_bits() == y.to_bits());
+        if post.id == pre.id && !(same_bits(&post.stds, &pre.stds) && same_bits(&post.mean, &pre.mean) && same_bits(&post.inv_stds, &pre.inv_stds)) {
+            report.violation(
+                format!("C02:{}:scales_changed_without_new_transformation_id", preset.name()),
+                format!("draw {dd} (draw-only estimate: {draw_only}): stds {:?} -> {:?}, mean {:?} -> {:?}, transformation id stays {}", pre.stds, post.stds, pre.mean, post.mean, post.id),
+                replay,
+            );
+            return;
         }
         for i in 0..d {
             if !((post.stds[i] * post.inv_stds[i] - 1.0).abs() <= 1e-9) {
@@ -616,7 +636,7 @@ fn adapted_case(report: &mut Report, seed: u64, idx: u64) {
     report.count("adapted_transformations_seen", n_ids);
     report.count("adapted_clamped_scales_seen", n_clamped);
     let mut h = Fnv::new();
-    h.str("adapted").str(preset.name()).u64(extreme).u64(d as u64).u64((n_clamped > 0) as u64);
+    h.str("adapted").str(preset.name()).u64(extreme).u64(d as u64).u64((n_clamped > 0) as u64).u64(draw_only as u64);
     report.nontrivial(h.finish());
 }
 
